@@ -454,6 +454,7 @@ def run(ctx):
                          f"K2 workbook_to_json:for … in {x.iter.id}", f"`{x.iter.id}` comes from dict.get() (None when the key is missing) and is tested before iteration", w2j.loc(x),
                          why_fail=f"{norm(src[0].value)} may be None")
     # K4: % formatting with a non-literal left operand
+    k4_bad = {}
     for fi in repo.all_functions():
         if fi.fq not in reach:
             continue
@@ -473,7 +474,14 @@ def run(ctx):
             else:
                 tags = prov.classify(left, fi)
                 numeric = tags <= {"IDX", "LIT"}
-                r4.check(numeric, f"K4 {fi.fq}:{norm(x)[:50]}", "the left operand of % is not author-controlled text", fi.loc(x), why_fail=f"format string provenance {sorted(tags)}")
+                if numeric:
+                    r4.ok(f"K4 {fi.fq}:{norm(x)[:50]}", "the left operand of % is not author-controlled text", fi.loc(x))
+                else:
+                    k4_bad.setdefault(fi.fq, []).append((x, tags))
+    # one finding per function (how many %-sites a function spreads the substitution over is an implementation detail)
+    for fq_, sites_ in sorted(k4_bad.items()):
+        fi_ = next(f for f in repo.all_functions() if f.fq == fq_)
+        r4.fail(f"K4 {fq_}:%-formatting of author text", f"the left operand of % is not author-controlled text ({len(sites_)} site(s): " + "; ".join(norm(x_)[:40] for x_, _t in sites_[:3]) + ")", fi_.loc(sites_[0][0]))
     # K8: explicit keyword together with ** of an author-keyed dict
     from .c01 import _dead_site
     for s in xml_sites(ctx):
